@@ -539,6 +539,29 @@ theorem elab_rejects_write_to_repeated_swizzle {Γ : Env} {dbg : Bool} {o : BinO
       simp at hmm; obtain ⟨_, rfl⟩ := hmm
       simp [swizzleVT, hd]
 
+/-- a matrix swizzle selects at most four components (`read_matrix_subscript` refuses more), so its type is a scalar or a
+    vector of width 2..4 -/
+theorem matrix_swizzle_at_most_four {Γ : Env} {name : String} {e n : IExpr} {τ τ' : ETy} {s : Scalar} {x y : Nat}
+    (hl : τ.ty.layer = .matrix s x y) (h : elabMember Γ name e τ = .ok (n, τ')) :
+    ∃ slots, n = .mswizzle e slots ∧ slots.length ≤ 4 := by
+  unfold elabMember at h
+  split at h
+  · simp at h
+  · simp only [hl] at h
+    split at h
+    · rename_i slots hs
+      simp at h; obtain ⟨rfl, _⟩ := h
+      exact ⟨slots, rfl, readMatrix_length x y _ _ _ _ _ slots hs⟩
+    · simp at h
+
+/-- **A vector swizzle may name more than four components.**  `float4 v0; v0.xyzwx` is accepted with the five-component
+    type `Vector(float, 5)`, which no declaration can spell: the scalar and vector arms of the `Member` case do not limit
+    the number of slots (the matrix arm does, `matrix_swizzle_at_most_four`). -/
+theorem vector_swizzle_longer_than_four_accepted :
+    (match elabE true { vars := [⟨{}, .vector .float32 4⟩], funcs := [] } (.member (.var 0) "xyzwx") with
+     | .ok (.swizzle (.var 0) [0, 1, 2, 3, 0], τ) => decide (τ = ⟨⟨{}, .vector .float32 5⟩, .rvalue⟩)
+     | _ => false) = true := by decide
+
 /-! ## writes through projection chains -/
 
 /-- **Writes to const objects through projections are rejected** — for every chain of swizzles and subscripts, of any
